@@ -2,6 +2,7 @@ package scen
 
 import (
 	"bytes"
+	"errors"
 	"encoding/hex"
 	"fmt"
 	"io"
@@ -430,9 +431,30 @@ func interopLegB(r *core.Run, proto *spec.Proto, n int, opt spec.GenOpt) {
 		}
 		reused[site] = fresh
 		var err error
-		if p := r.Call(site+".IDecode", func() { err = fresh.IDecode(frames[i]) }); p != nil {
-			r.Fail("C02", "panic", site, "IDecode/"+p.Kind, "IDecode of a conformant image panicked: %s at %s", p.Value, p.Frame)
-			continue
+		// "frames, dispatches and decodes": half of the images take the way through the per-protocol dispatcher
+		viaDispatcher := c.Bool()
+		if viaDispatcher {
+			var dp protocol.PDU
+			if p := r.Call("Decode"+proto.Name, func() { dp, err = dispatcher[proto.Name](frames[i]) }); p != nil {
+				r.Fail("C02", "panic", site, "dispatcher/"+p.Kind, "the dispatcher panicked on a conformant image: %s at %s", p.Value, p.Frame)
+				continue
+			}
+			switch {
+			case err == nil && dp != nil && typeSite(dp) == site:
+				fresh = dp
+				reused[site] = fresh
+			case errors.Is(err, protocol.ErrUnsupportedPacket) || (err == nil && dp != nil):
+				viaDispatcher = false // which types a dispatcher knows, and as what, is C10's question
+			default:
+				r.Fail("C02", "decode", site, "refused-by-dispatcher", "the dispatcher refused a specification-conformant image (%s, %d octets): %v", s.pd.Section, len(s.b), err)
+				continue
+			}
+		}
+		if !viaDispatcher {
+			if p := r.Call(site+".IDecode", func() { err = fresh.IDecode(frames[i]) }); p != nil {
+				r.Fail("C02", "panic", site, "IDecode/"+p.Kind, "IDecode of a conformant image panicked: %s at %s", p.Value, p.Frame)
+				continue
+			}
 		}
 		if err != nil {
 			r.Fail("C02", "decode", site, "refused", "IDecode refused a specification-conformant image (%s, %d octets): %v", s.pd.Section, len(s.b), err)
